@@ -41,9 +41,7 @@ theorem toObjList_stored_keys (sch : Schema) (key pfx : Str) (objs : List JVal) 
   | nil =>
     simp only [toObjList, hs, Option.some.injEq] at hE
     subst hE
-    have : removeEmpty (emptyListEntry sch) = [] := by
-      simp [removeEmpty, emptyListEntry, List.filter_eq_nil_iff]
-    rw [this]
+    rw [removeEmpty_emptyListEntry sch]
     intro p hp; cases hp
   | cons row r =>
     obtain ⟨E', hE', hEr⟩ := encodeRows_render sch pfx (row :: r) hr 0
